@@ -70,6 +70,7 @@ structure Run where
   cancel : CancelAt := .never
   watchErr : Option (Nat × Nat) := none
   envDel : List Id := []
+  initial : List Id := []        -- objects whose current status the watcher reports before its sync event
 deriving Repr, Inhabited
 
 def invId : String := "inv-1"
@@ -900,6 +901,16 @@ def prepare (s : St) (plan : Plan) (pruneObjs : List Live) : St :=
   { s with invalid := plan.invalid, graph := plan.graph, edges := plan.edges, mgr := m3,
            events := .init (plan.tasks.map (fun t => (t.name, t.action run.destroy, t.ids))) :: s.events }
 
+/-- statuses the watcher reports before its sync event (informers' initial adds): cached, forwarded if requested -/
+def initialStatuses (s : St) : St :=
+  if s.run.opts.dry ≠ .none then s else     -- dry-runs use the library's blind watcher
+  s.run.initial.foldl (fun s id =>
+    match s.cl.find? id with
+    | none => s
+    | some l =>
+      let s1 := { s with cache := (id, { status := .current, hasRes := true, gen := l.gen, uid := l.uid }) :: s.cache }
+      if s1.run.opts.emitStatus then s1.emit (.status id "Current") else s1) s
+
 def localNamespaces (applyIdsAll : List Id) : List String := dedup ((applyIdsAll.map (·.ns)).filter (· ≠ "") ++ [invNs])
 
 /-- `Applier.Run` / `Destroyer.Run` -/
@@ -917,8 +928,8 @@ def runOne (c : Cluster) (run : Run) : St :=
     let plan := buildPlan run applyMs pruneObjs prev r2.2.isNone
     if !run.opts.skipInvalid && !plan.valErrors.isEmpty then r2.1.emit (.error "other")
     else
-      let s := prepare r2.1 plan pruneObjs
-      if run.cancel = .beforeSync then s.emit (.error "canceled")
+      let s := initialStatuses (prepare r2.1 plan pruneObjs)
+      if run.cancel = .beforeSync && run.opts.dry = .none then s.emit (.error "canceled")
       else runTasks pruneObjs (localNamespaces applyIdsAll) s plan.tasks
 
 end CliUtils.Sys
